@@ -20,3 +20,6 @@ claim("C11", "model_checking", "explicit reachability over segment states; foote
 claim("C18", "model_checking", "bounded-exhaustive enumeration of (segment, term list) on the real DocsMatchingTerms vs model union",
       "Every list of <=3 (thorough <=4) (field, term) pairs over known/unknown/empty fields and general/1-hit/absent terms, repeats and field switches included, on every built, loaded and self-merged MIX segment: the returned bitmap equals the model's union; no error, no panic.",
       TRUST, "DESIGN.md 5 C18", E1)
+claim("C08", "model_checking", "bounded-exhaustive enumeration of (segment, field, key range, automaton) on the real dictionary vs model",
+      "All 4^5 term-set assignments (built and self-merged, so every 1-hit/general/absent pattern over consecutive terms occurs) and every MERGE(k=2) output with deletions; for every field (known, unknown) every [start,end) over a 12-key bound set x automata: entries, byte order, entry counts, end-stays-end, Contains and PostingsList agree with the model.",
+      TRUST + " Harness automata implement segment.Automaton; vellum's automaton handling is exercised as part of the system under test.", "DESIGN.md 5 C08", E1)
